@@ -285,9 +285,13 @@ def rms_case(rec, seedt):
         ff, aa = f[m], asd[m]
         if ff.size < 2:
             return 0.0
-        return math.sqrt(float(np.sum(0.5 * (aa[1:] ** 2 + aa[:-1] ** 2) * np.diff(ff))))
+        return math.sqrt(math.fsum(0.5 * (aa[1:] ** 2 + aa[:-1] ** 2) * np.diff(ff)))
     exp = ref(a, b)
-    if abs(got - exp) > 1e-12 * max(exp, 1e-300) and abs(got - exp) > 1e-300:
+    # the reference sum is exact (fsum); a sequential or pairwise float64 sum of n non-negative
+    # terms is within n*u of it, and the square root halves that
+    tol_rel = 1e-12 + n * 1.2e-16
+    rec.ratio("rms_err_over_tol", abs(got - exp) / (tol_rel * max(exp, 1e-300)) if exp > 0 else 0.0)
+    if abs(got - exp) > tol_rel * max(exp, 1e-300) and abs(got - exp) > 1e-300:
         rec.violation("rms-not-trapezoid", f"integral_rms={got!r}, sqrt(trapz(asd^2)) over in-band "
                                            f"grid points={exp!r} (n={n}, band {band}, {bkind})")
     if n >= 3:
@@ -295,11 +299,11 @@ def rms_case(rec, seedt):
         r_ac = float(dsp.integral_rms(f, asd, (float(f[i]), float(f[k]))))
         r_ab = float(dsp.integral_rms(f, asd, (float(f[i]), float(f[j]))))
         r_bc = float(dsp.integral_rms(f, asd, (float(f[j]), float(f[k]))))
-        if abs(r_ac ** 2 - (r_ab ** 2 + r_bc ** 2)) > 1e-10 * max(r_ac ** 2, 1e-300):
+        if abs(r_ac ** 2 - (r_ab ** 2 + r_bc ** 2)) > (1e-10 + 4 * n * 1.2e-16) * max(r_ac ** 2, 1e-300):
             rec.violation("rms-not-additive", f"rms^2({f[i]:.4g},{f[k]:.4g}) != rms^2(..,{f[j]:.4g})"
                                               f" + rms^2({f[j]:.4g},..): {r_ac ** 2!r} vs "
                                               f"{r_ab ** 2 + r_bc ** 2!r}")
-        if r_ab > r_ac * (1 + 1e-12) or r_bc > r_ac * (1 + 1e-12):
+        if r_ab > r_ac * (1 + tol_rel) or r_bc > r_ac * (1 + tol_rel):
             rec.violation("rms-not-monotone", "a nested band has a larger rms")
 
 
